@@ -20,10 +20,10 @@ ASSUMPTIONS = ["migen tracer shim (names only)", "read data is compared on selec
                "Cache(reverse=...) lane order is used to map the backing memory's initial content to master addresses",
                "burst masters advance one beat per acknowledged cycle and follow the Wishbone B4 address sequence",
                "addresses stay inside the backing memory (beyond it the SRAM aliases by design)"]
-FLOORS = {"quick": {"reads_compared": 15000, "bytes_compared": 50000, "writes": 8000, "n_configs": 40, "burst_beats": 1500,
+FLOORS = {"quick": {"reads_compared": 15000, "bytes_compared": 50000, "writes": 8000, "n_configs": 40, "burst_beats": 1500, "burst_beats_after_master_wait_state": 150,
                     "cache_evictions": 300},
           "thorough": {"reads_compared": 300000, "bytes_compared": 1000000, "writes": 150000, "n_configs": 60,
-                       "burst_beats": 40000, "cache_evictions": 6000}}
+                       "burst_beats": 40000, "burst_beats_after_master_wait_state": 4000, "cache_evictions": 6000}}
 SHARD_TIMEOUT = {"quick": 900, "thorough": 3000}
 N_SAMPLES = 3
 
@@ -254,6 +254,9 @@ def gen_ops(rng, b, cfg, n):
             if wrap and cfg.get("longwrap") and rng.random() < 0.5:
                 ln = wrap + rng.choice([1, 2, wrap])
             s = sel() if we else full
+            # master wait states inside the burst (stb low, cyc and the burst's cti kept): legal in Wishbone B4 (a master may
+            # negate STB_O between the beats of a block / burst cycle); a third of the bursts have some
+            waits = rng.random() < 0.35
             for k in range(ln):
                 if kind == "const":
                     adr = a
@@ -263,7 +266,8 @@ def gen_ops(rng, b, cfg, n):
                     adr = a + k
                 cti = 7 if k == ln - 1 else (1 if kind == "const" else 2)
                 ops.append({"adr": b.base + adr, "we": we, "sel": s, "dat_w": rng.getrandbits(8 * nb), "cti": cti,
-                            "bte": bte, "gap": rng.choice([0, 0, 2]) if k == 0 else 0, "hold": k > 0, "burst": kind,
+                            "bte": bte, "gap": rng.choice([0, 0, 2]) if k == 0 else (rng.choice([0, 1, 1, 2, 3]) if waits else 0),
+                            "hold": k > 0, "burst": kind,
                             "beat": k, "wrap": wrap})
             i += ln
             continue
@@ -364,7 +368,7 @@ def run_case(case):
                 if fb.get(adr_b - 0, None) is not None and cfg["dut"] != "remap" and fb[adr_b] != val:
                     errs.append({"kind": "backing-memory-differs-from-reference", "byte_address": adr_b, "expected": val, "got": fb[adr_b]})
                     break
-    return {"errs": errs[:3], "reads": reads, "bytes": bytes_cmp, "writes": writes, "beats": beats, "capped": not ok,
+    return {"errs": errs[:3], "reads": reads, "bytes": bytes_cmp, "writes": writes, "beats": beats, "waited": sum(1 for e in m.log if e["i"] < len(ops) and ops[e["i"]].get("burst") and ops[e["i"]].get("beat", 0) > 0 and ops[e["i"]].get("gap", 0) > 0), "wait_state_acks": m.wait_state_acks, "capped": not ok,
             "cycles": bench.cycle["sys"], "completed": len(m.log), "nops": len(ops), "evictions": ec.n if ec else 0,
             "acks": pm.acks, "sample": m.log[:3]}
 
@@ -409,6 +413,8 @@ def run_shard(shard):
         col.ev("bytes_compared", r["bytes"])
         col.ev("writes", r["writes"])
         col.ev("burst_beats", r["beats"])
+        col.ev("burst_beats_after_master_wait_state", r.get("waited", 0))
+        col.ev("lookahead_acks_in_master_wait_states(ignored)", r.get("wait_state_acks", 0))
         col.ev("cache_evictions", r["evictions"])
         col.ev("acks_seen", r["acks"])
         col.ev("sim_cycles", r["cycles"])
